@@ -47,6 +47,60 @@ def budget(tier):
     return 400 if tier == "quick" else 25_000
 
 
+class _NullTransport:
+    """Stand-in link for the restarted process: this property is about the file, not the wire."""
+
+    async def connect(self):
+        pass
+
+    async def disconnect(self):
+        pass
+
+    async def read(self):
+        import asyncio
+        await asyncio.sleep(10 ** 9)
+
+    async def write(self, decoded_message):
+        pass
+
+
+def _restarts(image, res, icls, first, detail):
+    """The process is started again - twice - the way an application does it: a new Gateway on the surviving file,
+    context entered and left.  "The file afterwards loads to the old or the new registry" also has to hold after a
+    start that FAILED on a damaged file: a failed start may not make things worse (e.g. write an empty registry over
+    the remains).  first = classification of the direct load of the surviving image."""
+    from aiomysensors import Config, Gateway
+
+    pw = PWorld({})
+    try:
+        if image is not None:
+            pw.disk.files[PATH] = bytearray(image)
+        seen = []
+        for _ in range(2):
+            async def start():
+                gw = Gateway(_NullTransport(), Config(persistence_file=PATH))
+                async with gw:
+                    return snapshot(gw.nodes)
+            o, v = pw.run(start(), horizon=100)
+            if o == "ok":
+                seen.append(("ok", v))
+            else:
+                seen.append(("read-error" if isinstance(v, PersistenceReadError)
+                             else f"error:{type(v).__name__ if v is not None else o}", None))
+        res.probes["restart_through_gateway"] += 1
+        if seen[0][0] != "ok":
+            res.probes["failed_start_then_second_start"] += 1
+        if seen[0] != seen[1]:
+            def name(x):
+                return x[0] if x[0] != "ok" else ("empty-registry" if not x[1] else "registry")
+            res.violate(PROP, "post-crash-restart", f"{icls}:{name(seen[0])}-then-{name(seen[1])}",
+                        f"{detail}; direct load: {first}; first start {seen[0][0]}, second start {seen[1][0]} "
+                        f"{sorted(seen[1][1]) if seen[1][1] is not None else ''}: a start on the surviving file changed "
+                        f"what the file loads to"[:600])
+    finally:
+        pw.close()
+
+
 def wall(tier):
     return 90 if tier == "quick" else 1500
 
@@ -188,6 +242,9 @@ def run(scn) -> RunResult:
                 icls = "file-missing"
             else:
                 icls = "garbage"
+            good = o == "ok" and got in (want_old, want_new)
+            if not good or (k + (torn or 0)) % 5 == 0:
+                _restarts(image, res, icls, o if o != "ok" else "ok", f"crash at raw op {k}/{nops} torn={torn}")
             if o == "ok" and got == want_old:
                 res.probes["post_crash_old"] += 1
             elif o == "ok" and got == want_new:
@@ -309,7 +366,10 @@ def run_session(scn) -> RunResult:
                 pw.close()
             if o == "ok" and got in candidates:
                 res.probes["post_crash_old" if got == old_snap else "post_crash_new"] += 1
+                if k % 5 == 0:
+                    _restarts(image, res, "readable-image", "ok", f"session mode: crash at raw op {k}/{nops}")
                 continue
+            _restarts(image, res, "damaged-image", o, f"session mode: crash at raw op {k}/{nops}")
             if image in cand_images:
                 icls = "new-image"
             elif image == b"":
